@@ -2,6 +2,7 @@ import Noodles.Basic.Wire
 import Noodles.Cram.Features
 import Noodles.Cram.Mates
 import Noodles.Cram.Container
+import Noodles.Cram.DriverC07Enc
 /-! Line-protocol handler for the CRAM record / mate / container models (`c07 …`). -/
 namespace Noodles.Cram.Drv
 open Noodles.Wire
@@ -122,6 +123,6 @@ def handleC07 : List String → String
     | some n => toString (Container.itf8SizeOf n)
     | none => "bad-op"
   | ["eof"] => hexN Container.eof
-  | _ => "bad-op"
+  | ws => (DrvEnc.handle ws).getD "bad-op"
 
 end Noodles.Cram.Drv
